@@ -269,7 +269,7 @@ CHECKS = {
         "growth step k, deadlines before/during/after the output, second drain on closed streams; plus a C++ pass: reproc::drain / "
         "reproc::run (drain.hpp, run.hpp) with recording lambdas, failing sinks, sink::string / thread_safe::string / ostream / "
         "discard against free-running children on the real library; non-trivial = a drain/run was compared",
-        {"drains": 1500, "sink_calls": 10000, "closing_calls": 1500, "sink_failures": 50, "string_sinks": 150,
+        {"drains": 1500, "sink_calls": 10000, "closing_calls": 900, "sink_failures": 50, "string_sinks": 150,
          "realloc_faults_fired": 50, "timeouts": 50, "runs": 300, "cxx_cases": 400, "cxx_sink_calls": 1500,
          "cxx_runs": 100, "cxx_string_sinks": 50, "cxx_timeouts": 50},
         assumptions=KERNEL_TRUST + ["the C++ pass runs free-running helper children in real time: only time-independent facts are asserted (plus 'an expired deadline with open streams yields timed_out')"],
